@@ -53,7 +53,8 @@ CONSTANTS
     MapLock,      \* guard: mutex around the esgzDigest2TOC write
     CopyOpts,     \* guard: option slice copied before WithCompression is appended
     DiffIDCheck,  \* guard: lossless path compares DiffID and size before committing
-    UpdateLabel   \* guard: containerd.io/uncompressed label set from the built blob
+    UpdateLabel,  \* guard: containerd.io/uncompressed label set from the built blob
+    MediaTypeFollowsBlob  \* guard: a zstd source layer converted to (gzip) eStargz gets the gzip media type
 
 VARIABLES
     src,      \* [Convs -> source layer record]
@@ -93,7 +94,9 @@ Catalogue == <<
     [tar |-> 1, comp |-> "esgz", fam |-> "oci",    lbl |-> FALSE] >>
 
 CompIdx(c) == CASE c = "none" -> 0 [] c = "gzip" -> 1 [] c = "zstd" -> 2 [] c = "esgz" -> 3
-SrcBlob(s) == 100 + 10 * s.tar + CompIdx(s.comp)
+\* a source layer as the conversions see it: the catalogue entry plus the id of its bytes in the store
+WithBlob(s) == [tar |-> s.tar, comp |-> s.comp, fam |-> s.fam, lbl |-> s.lbl, blob |-> 100 + 10 * s.tar + CompIdx(s.comp)]
+SrcBlob(s) == s.blob
 SrcDiff(s) == IF s.comp = "esgz" THEN 1010 + s.tar ELSE 1000 + s.tar      \* SHA-256 id of the uncompressed source stream
 OutComp == IF Mode = "zstd" THEN "zstd" ELSE "gzip"
 \* design model: the blob a conversion of source s builds, and what is true of it
@@ -101,8 +104,9 @@ OutBlob(s) == 200 + 10 * s.tar + (IF Lossless THEN 5 + CompIdx(s.comp) ELSE 0)
 OutFacts(s, deviates) ==
     [size |-> 2000 + s.tar, comp |-> OutComp,
      diffid |-> IF Lossless /\ ~deviates THEN SrcDiff(s) ELSE 1100 + s.tar,
-     usize |-> 3000 + s.tar, toc |-> 4000 + OutBlob(s)]
-SrcFacts(s) == [size |-> 500 + s.tar, comp |-> s.comp, diffid |-> SrcDiff(s), usize |-> 600 + s.tar, toc |-> 0]
+     usize |-> 3000 + s.tar, toc |-> 4000 + OutBlob(s), zinfo |-> IF Mode = "zstd" THEN 5000 + OutBlob(s) ELSE 0]
+SrcFacts(s) == [size |-> 500 + s.tar, comp |-> IF s.comp = "esgz" THEN "gzip" ELSE s.comp, diffid |-> SrcDiff(s),
+                usize |-> 600 + s.tar, toc |-> 0, zinfo |-> 0]
 
 NoDesc == [digest |-> 0, size |-> 0, mtcomp |-> "", mtfam |-> "", toc |-> 0, usize |-> 0, zinfo |-> 0]
 
@@ -116,7 +120,7 @@ Upd(f, k, v) == [x \in (DOMAIN f) \cup {k} |-> IF x = k THEN v ELSE f[x]]
 
 ----------------------------------------------------------------------------
 Init ==
-    /\ src \in [Convs -> {Catalogue[i] : i \in SrcIds}]
+    /\ src \in [Convs -> {WithBlob(Catalogue[i]) : i \in SrcIds}]
     /\ pc = [c \in Convs |-> "idle"]
     /\ slot = 0
     /\ cmp = [c \in Convs |-> 0]
@@ -225,7 +229,8 @@ Interrupt(c) ==
     /\ last' = [act |-> "Interrupt", c |-> c]
 
 MtComp(s) == IF Mode = "zstd" THEN "zstd"
-             ELSE IF s.comp \in {"none", "gzip", "esgz"} THEN "gzip" ELSE s.comp       \* "Media type is unchanged" (+gzip if uncompressed)
+             ELSE IF s.comp \in {"none", "gzip", "esgz"} \/ MediaTypeFollowsBlob THEN "gzip"
+             ELSE s.comp       \* pinned tree: "Media type is unchanged" (+gzip only if uncompressed)
 MtFam(s) == IF Mode = "zstd" THEN "oci" ELSE s.fam
 
 \* descriptor from the Blob accessors of the conversion's own blob; ext: writeTOCTo from the OWN compressor object
@@ -234,7 +239,8 @@ Annotate(c) ==
     /\ LET b == out[c]
            d == [digest |-> b, size |-> facts[b].size, mtcomp |-> MtComp(src[c]), mtfam |-> MtFam(src[c]),
                  toc |-> facts[b].toc, usize |-> facts[b].usize,
-                 zinfo |-> IF Mode = "zstd" THEN tocbuf[c] ELSE 0]     \* zstd: manifest checksum/position from the OWN Metadata map
+                 \* zstd: manifest checksum/position from the OWN Metadata map (empty if Build used another compressor)
+                 zinfo |-> IF Mode = "zstd" /\ tocbuf[c] # 0 THEN facts[tocbuf[c]].zinfo ELSE 0]
        IN
         /\ desc' = [desc EXCEPT ![c] = d]
         /\ IF Ext
@@ -309,7 +315,7 @@ StoreLabelIsDiffID  == \A c \in Returned : (desc[c].digest \in DOMAIN facts /\ d
                             \/ (store[b].label = 0 /\ b \in pre)
 MediaTypeMatches    == \A c \in Returned : desc[c].digest \in DOMAIN facts => desc[c].mtcomp = facts[desc[c].digest].comp
 \* zstd:chunked: the manifest checksum/position annotations are those of this blob's TOC frame
-ZstdManifestInfo    == \A c \in Returned : Mode = "zstd" => desc[c].zinfo = desc[c].digest
+ZstdManifestInfo    == \A c \in Returned : desc[c].digest \in DOMAIN facts => desc[c].zinfo = facts[desc[c].digest].zinfo
 DescDescribesBlob ==
     /\ DescDigestCommitted /\ DescSize /\ DescTocVerifies /\ DescUncompressedSize
     /\ StoreLabelIsDiffID /\ MediaTypeMatches /\ ZstdManifestInfo
